@@ -114,6 +114,35 @@ def check_C14(tier):
         if d in seen and seen[d] != key:
             chk.violation("two random identities share a temp directory", dict(a=json.loads(seen[d]), b=q, dir=d))
         seen[d] = key
+    # identities with joined in-ports (sub-stream members) beside ordinary in-ports whose names sort before / after the joined one:
+    # every component must matter, the carrier's random name must not
+    subs_ids = []
+    for members in (["a.txt", "b.txt"], ["a.txt"], ["b.txt", "a.txt"], []):
+        for other in ({}, {"zhead": "h1.txt"}, {"zhead": "h2.txt"}, {"ahead": "h1.txt"}, {"ahead": "h1.txt", "zhead": "h2.txt"}, {"ahead": "h1.txt", "zhead": "h3.txt"}):
+            for second in (None, ["a.txt"], ["c.txt"]):
+                sub = {"files": members}
+                if second is not None: sub["more"] = second
+                subs_ids.append(dict(op="tempdir", name="cat", ins=other, subs=sub, params={}, tags={}))
+    b1 = call_probe(subs_ids); b2 = call_probe(list(reversed(subs_ids)))[::-1]
+    seen = {}
+    for q, x, y in zip(subs_ids, b1, b2):
+        chk.evaluations += 2
+        d = x.get("dir")
+        if not d:
+            chk.undecided.append("probe failed for a sub-stream identity: %s" % x); continue
+        if d != y.get("dir"):
+            chk.violation("the same task with a joined in-port got two different temp directories (the carrier file has a random name): %s vs %s" % (d, y.get("dir")), dict(identity=q))
+        key = json.dumps([q["ins"], q["subs"]], sort_keys=True)
+        if d in seen and seen[d] != key:
+            a, b = json.loads(seen[d]), [q["ins"], q["subs"]]
+            # pieces are concatenated without separator (F4): identities whose concatenations agree are that finding, everything else is new
+            cat = lambda z: "".join(v for _, v in sorted(z[0].items())) + "".join("".join(v) for _, v in sorted(z[1].items()))
+            if cat(a) == cat(b) and findings.active("F4"):
+                chk.notes.append("F4-class collision among sub-stream identities")
+            else:
+                chk.violation("tasks with joined in-ports that differ in an in-port / a sub-stream member share the temp directory %s: %s vs %s" % (d, a, b), dict(a=a, b=b))
+        seen.setdefault(d, key)
+    chk.nontrivial.add("substream-identities:%d" % len(subs_ids))
     # stability across runs of a task with a joined in-port (end to end, two fresh directories)
     for nitems in (3, 0, 1):
         inst = dict(name="JN", max=2, bufsize=4, procs=[zoo.src("s", zoo.items(nitems)), zoo.cmd("a", ["in"]), dict(name="ss", kind="substream"),
